@@ -11,7 +11,7 @@ def init_world(sc):
     c = sc["cfg"]
     q, _ = quantum(c["tps"])
     pools = [{"ac": c["cpus"], "ar": to_q(c["ram"], q), "cons": 0, "capc": c["cpus"], "capr": to_q(c["ram"], q),
-              "A": [], "S": [], "D": [], "done": 0} for _ in range(c["npools"])]
+              "A": [], "S": [], "D": [], "done": 0, "K": {"snap": [], "victims": []}} for _ in range(c["npools"])]
     return {"st": ["P" * len(p["ops"]) for p in sc["pipes"]],
             "cnt": [[len(p["ops"]), 0, 0, 0, 0, 0] for p in sc["pipes"]], "pools": pools}
 
